@@ -1229,6 +1229,9 @@ func runCase(t *testing.T, col *Collector, in Input) {
 	for _, c := range counts {
 		col.Count(c)
 	}
+	ptags, pnontrivial := punctTags(in)
+	tags = append(tags, ptags...)
+	nontrivial = nontrivial || pnontrivial
 	tags = append(tags, in.Tags...)
 	key, _ := json.Marshal(in)
 	id := col.NextID()
@@ -1272,6 +1275,10 @@ func TestC19(t *testing.T) {
 		} else if k < 11 {
 			in := finish(g.focused())
 			in.Tags = append(in.Tags, "gen:focused")
+			ins = append(ins, in)
+		} else if k < 13 { // a tenth of the cases: punctuation other than '.' inside path components
+			in := g.punct()
+			in.Tags = append(in.Tags, "gen:punct")
 			ins = append(ins, in)
 		} else {
 			in := finish(g.random())
